@@ -237,10 +237,100 @@ Proof.
 Qed.
 
 Theorem composed_one_panics_iff s sp :
-  composed_one [(sp_src sp, s)] (Some sp) = Panic <-> (length s < sp_start sp \/ length s < sp_end sp).
+  composed_one [(sp_src sp, s)] (Some sp) = Panic <->
+  (length s < sp_start sp \/ length s < sp_end sp \/ sp_end sp < sp_start sp).
 Proof.
   unfold composed_one. cbn [find fst]. rewrite Nat.eqb_refl.
-  rewrite <- compose_location_none. destruct (compose_location s sp); split; intro H; try discriminate; reflexivity.
+  pose proof (compose_location_none s sp) as N.
+  destruct (compose_location s sp) as [l|].
+  - destruct (Nat.ltb_spec (sp_end sp) (sp_start sp)); split; intro H0; try reflexivity; try discriminate.
+    + tauto.
+    + destruct H0 as [H0|[H0|H0]]; [| |lia]; (assert (Some l = None) as X by (apply N; tauto); discriminate).
+  - split; intro H0; [|reflexivity]. assert (length s < sp_start sp \/ length s < sp_end sp) by (apply N; reflexivity). tauto.
+Qed.
+
+(* a span that `composed` leaves on a message names a file of the tree, lies within the character length of that
+   file, and the location is the position of its two ends; a span of a source outside the tree is removed *)
+Lemma find_source_key (tree : list (nat * source)) k p :
+  find (fun p => Nat.eqb (fst p) k) tree = Some p -> fst p = k.
+Proof. intro H. apply find_some in H as [_ H]. apply Nat.eqb_eq in H. exact H. Qed.
+
+Theorem composed_one_reported tree sp sp' loc :
+  composed_one tree sp = Ret (Some sp', loc) ->
+  sp = Some sp' /\
+  exists s, find (fun p => Nat.eqb (fst p) (sp_src sp')) tree = Some (sp_src sp', s) /\
+    sp_start sp' <= sp_end sp' /\ sp_end sp' <= length s /\
+    loc = Some (locate (lines s) (sp_start sp') 0, locate (lines s) (sp_end sp') 0).
+Proof.
+  unfold composed_one. destruct sp as [sp|]; [|discriminate].
+  destruct (find (fun p => Nat.eqb (fst p) (sp_src sp)) tree) as [[k s]|] eqn:F; [|discriminate].
+  destruct (compose_location s sp) as [l|] eqn:C; [|discriminate].
+  destruct (Nat.ltb_spec (sp_end sp) (sp_start sp)) as [R|R]; [discriminate|].
+  intro H. injection H as <- <-. split; [reflexivity|]. exists s.
+  pose proof (find_source_key _ _ _ F) as K. cbn [fst] in K. subst k.
+  assert (~ (length s < sp_start sp \/ length s < sp_end sp)) as B.
+  { intro B. apply compose_location_none in B. congruence. }
+  assert (sp_start sp <= length s) as B1 by lia. assert (sp_end sp <= length s) as B2 by lia.
+  repeat split; try assumption.
+  rewrite <- C. apply location_is_position_lemma; assumption.
+Qed.
+
+Theorem composed_one_foreign tree sp :
+  find (fun p => Nat.eqb (fst p) (sp_src sp)) tree = None -> composed_one tree (Some sp) = Ret (None, None).
+Proof. intro F. unfold composed_one. rewrite F. reflexivity. Qed.
+
+(* no message keeps a location without a span *)
+Theorem composed_one_location_has_span tree sp loc :
+  composed_one tree sp = Ret (None, loc) -> loc = None.
+Proof.
+  unfold composed_one. destruct sp as [sp|]; [|intro H; injection H as <-; reflexivity].
+  destruct (find (fun p => Nat.eqb (fst p) (sp_src sp)) tree) as [[k s]|]; [|intro H; injection H as <-; reflexivity].
+  destruct (compose_location s sp); [|discriminate]. destruct (Nat.ltb (sp_end sp) (sp_start sp)); discriminate.
+Qed.
+
+(* ------------------------------------------------------------ lexer errors as reported (composed) *)
+Theorem lexer_error_reported_located tree s bs be sid :
+  find (fun p => Nat.eqb (fst p) sid) tree = Some (sid, s) ->
+  boundary s bs -> boundary s be -> bs <= be ->
+  exists cs ce,
+    lexer_error_reported tree s bs be sid =
+      Ret ((Some (Span cs ce sid), Some (locate (lines s) cs 0, locate (lines s) ce 0)), firstn (ce - cs) (skipn cs s)) /\
+    cs <= ce /\ ce <= length s /\ byte_of_char s cs = bs /\ byte_of_char s ce = be.
+Proof.
+  intros F Hs He Hle.
+  destruct (lexer_error_span_in_bounds_lemma s bs be sid Hs He Hle) as (cs & ce & E & H1 & H2 & H3 & H4).
+  exists cs, ce. split; [|repeat split; assumption].
+  unfold lexer_error_reported. rewrite E. cbn [bind fst snd]. unfold composed_one. cbn [sp_src]. rewrite F.
+  rewrite location_is_position_lemma by (cbn [sp_start sp_end]; lia). cbn [sp_start sp_end].
+  destruct (Nat.ltb_spec ce cs); [lia | reflexivity].
+Qed.
+
+Theorem prql_to_tokens_error_located s bs be :
+  boundary s bs -> boundary s be -> bs <= be ->
+  exists cs ce,
+    prql_to_tokens_error s bs be =
+      Ret ((Some (Span cs ce 1), Some (locate (lines s) cs 0, locate (lines s) ce 0)), firstn (ce - cs) (skipn cs s)) /\
+    cs <= ce /\ ce <= length s /\ byte_of_char s cs = bs /\ byte_of_char s ce = be.
+Proof.
+  intros. unfold prql_to_tokens_error. apply lexer_error_reported_located; try assumption. reflexivity.
+Qed.
+
+(* ------------------------------------------------------------ fold_function: errors of std bodies *)
+Theorem respan_std_user err call cs sp :
+  call = Some cs -> sp_src cs <> std_source_id -> respan_std err call = Some sp -> sp_src sp <> std_source_id.
+Proof.
+  intros -> Hc. unfold respan_std. destruct err as [e|].
+  - destruct (Nat.eqb_spec (sp_src e) std_source_id) as [E|E]; destruct (Nat.eqb_spec (sp_src cs) std_source_id); cbn [negb andb]; try lia;
+      intro H; injection H as <-; assumption.
+  - cbn [andb]. discriminate.
+Qed.
+
+(* an error that does not point into std.prql is left alone *)
+Theorem respan_std_keeps err call :
+  (forall e, err = Some e -> sp_src e <> std_source_id) -> respan_std err call = err.
+Proof.
+  intro H. unfold respan_std. destruct err as [e|]; [|reflexivity].
+  specialize (H e eq_refl). destruct (Nat.eqb_spec (sp_src e) std_source_id); [contradiction | reflexivity].
 Qed.
 
 (* ------------------------------------------------------------ token spans *)
